@@ -143,6 +143,8 @@ def _build(cfg, w, nan=False, fortran=False):
         shape = ds.shape
         I, O, ST = w.arr(f"s{j}_in", shape), w.arr(f"s{j}_out", shape), w.arr(f"s{j}_stock", shape)
         name = cfg.get("name_prefix", "") + f"stock{j}"
+        if cfg.get("stock_named_like_flow") and j == 0 and F:
+            name = list(F)[0]  # flow names and stock names are separate name spaces
         stocks[name] = SimpleFlowDrivenStock(dims=ds, inflow=StockArray(dims=ds, values=I.copy()), outflow=StockArray(dims=ds, values=O.copy()),
                                              stock=StockArray(dims=ds, values=ST.copy()), name=name, process=procs[sp] if sp else None)
         S[name] = (sp, d, I, O, ST)
